@@ -657,6 +657,10 @@ impl AssemblyCode {
                             flags = FlagsState::Unknown;
                         }
                         AsmMnemonic::TAX => {
+                            // N and Z now describe A and X: a belief about Y is void
+                            if flags == FlagsState::Y {
+                                flags = FlagsState::X;
+                            }
                             x_register = accumulator.clone();
                             if let Some(v) = &accumulator {
                                 if v.ends_with(",X") {
@@ -671,6 +675,10 @@ impl AssemblyCode {
                             }
                         }
                         AsmMnemonic::TAY => {
+                            // N and Z now describe A and Y: a belief about X is void
+                            if flags == FlagsState::X {
+                                flags = FlagsState::Y;
+                            }
                             y_register = accumulator.clone();
                             if let Some(v) = &accumulator {
                                 if v.ends_with(",Y") {
@@ -686,9 +694,17 @@ impl AssemblyCode {
                         }
                         AsmMnemonic::TXA => {
                             accumulator = x_register.clone();
+                            // N and Z now describe A and X: a belief about Y is void
+                            if flags == FlagsState::Y {
+                                flags = FlagsState::A;
+                            }
                         }
                         AsmMnemonic::TYA => {
                             accumulator = y_register.clone();
+                            // N and Z now describe A and Y: a belief about X is void
+                            if flags == FlagsState::X {
+                                flags = FlagsState::A;
+                            }
                         }
                         AsmMnemonic::STA | AsmMnemonic::STX | AsmMnemonic::STY => {
                             if let Some(v) = &accumulator {
@@ -711,7 +727,11 @@ impl AssemblyCode {
                         | AsmMnemonic::SBC
                         | AsmMnemonic::EOR
                         | AsmMnemonic::AND
-                        | AsmMnemonic::ORA => accumulator = None,
+                        | AsmMnemonic::ORA => {
+                            accumulator = None;
+                            // N and Z describe the result, which is in A
+                            flags = FlagsState::A;
+                        }
                         AsmMnemonic::LSR | AsmMnemonic::ASL | AsmMnemonic::ROL | AsmMnemonic::ROR => {
                             // Shift of the accumulator, or of a memory cell that a register may be known to hold
                             accumulator = None;
@@ -727,7 +747,12 @@ impl AssemblyCode {
                             }
                             flags = FlagsState::Unknown;
                         }
-                        AsmMnemonic::PLA | AsmMnemonic::PHA => accumulator = None,
+                        AsmMnemonic::PLA => {
+                            accumulator = None;
+                            // N and Z describe the value pulled
+                            flags = FlagsState::A;
+                        }
+                        AsmMnemonic::PHA => accumulator = None,
                         AsmMnemonic::JSR | AsmMnemonic::JMP => {
                             accumulator = None;
                             x_register = None;
